@@ -322,12 +322,15 @@ void vm_verif_audit(VmState *vm) {
     }
 }
 
+/* Read the configuration once, before any thread exists (the daemon never enables the audit,
+ * and must not race on these variables). */
+__attribute__((constructor)) static void vm_verif_configure(void) {
+    const char *e = getenv("NANOLANG_VERIF_AUDIT");
+    va_stride = e ? atol(e) : 0;
+    va_countdown = va_stride;
+}
+
 static void vm_verif_tick(VmState *vm) {
-    if (va_stride < 0) {
-        const char *e = getenv("NANOLANG_VERIF_AUDIT");
-        va_stride = e ? atol(e) : 0;
-        va_countdown = va_stride;
-    }
     if (va_stride <= 0) return;
     if (--va_countdown > 0) return;
     va_countdown = va_stride;
